@@ -836,7 +836,9 @@ fn create_archive(
         return Ok(());
     }
 
-    Ok(())
+    // --batch: the legacy batch compressor is not wired into this binary; reporting success
+    // without writing an archive would be a lie.
+    anyhow::bail!("--batch (legacy batch mode) is not supported by this build; omit --batch to use the streaming compressor")
 }
 
 fn write_bin<P: AsRef<Path>>(path: P, data: &[u8]) -> Result<()> {
